@@ -75,6 +75,7 @@ MODEL_MAP = {
     "cutplace.rowio.FixedRowWriter.write_row": "Model/Engine.lean: padding; harness renders the line delimiter",
     "cutplace.rowio.ods_rows": "Model/Ods.lean: odsRows, odsRowsOf, odsRow, cellValue, joinParas",
     "cutplace.rowio._ods_text_parts": "Model/Ods.lean: textParts, childrenParts",
+    "cutplace.rowio._ods_table_rows": "Model/Ods.lean: tableRowsOf, tableRowsIn",
     "cutplace.rowio._excel_cell_value": "Model/Excel.lean: excelCellText, xldateCivil (xlrd.xldate_as_tuple)",
     "cutplace.rowio.excel_rows": "Model/Excel.lean: excelRows",
     "cutplace.rowio.auto_rows": "harness only (C17): CID storage formats",
@@ -102,7 +103,7 @@ PROPERTY_ANCHORS = {
     "C12": ["cutplace.rowio._as_delimited_keywords", "cutplace.rowio.delimited_rows", "cutplace.rowio.DelimitedRowWriter.", "cutplace.data.DataFormat.validate"],
     "C13": ["cutplace.rowio.fixed_rows", "cutplace.interface.field_names_and_lengths"],
     "C14": ["cutplace.validio.Writer.", "cutplace.rowio.FixedRowWriter.", "cutplace.rowio.DelimitedRowWriter."],
-    "C15": ["cutplace.rowio.ods_rows", "cutplace.rowio._ods_text_parts"],
+    "C15": ["cutplace.rowio.ods_rows", "cutplace.rowio._ods_text_parts", "cutplace.rowio._ods_table_rows"],
     "C16": ["cutplace.rowio._excel_cell_value", "cutplace.rowio.excel_rows"],
     "C17": ["cutplace.rowio.auto_rows", "cutplace.fields.DecimalFieldFormat.__init__", "cutplace.fields.DateTimeFieldFormat."],
     "C18": ["cutplace.applications."],
